@@ -17,7 +17,7 @@
 //!        action_new{json} action_status{s,code} action_log{s,allow,code} action_ser{s} action_drop{s}
 //!        headers{a,headers:[[n,v]],code,add} hlist_free{s} filter_new{a,code,headers} filter_feed{f,b} filter_close{f} filter_drop{s}
 //!        req_new{via,..} req_addr{s,addr,tp} req_ser{s} req_drop{s} log_json{r,a,headers,code,proxy,time,ip} version{} str_free{s}
-//!        tp_new{list} tp_add{s,proxy}
+//!        tp_new{list} tp_add{s,proxy} hmap_new{headers} (http_headers_to_header_map directly; NUL / empty strings) hmap_read{s}
 //! obs:  {"results": [per call: {"slot": i, "owned": [sizes of the allocations the new handle owns, from the audit table],
 //!                               "bytes": hex (buffers)} | {"alias": true} | {"read": hex} | null],
 //!        "unreleased": [slot..] (before the harness releases the rest), "faults": [..], "leaked": n}
@@ -80,6 +80,9 @@ static RUN_ID: AtomicU32 = AtomicU32::new(1);
 static CALL_IDX: AtomicU32 = AtomicU32::new(0);
 static LIVE_BY_CALL: [AtomicI64; MAX_CALLS] = [const { AtomicI64::new(0) }; MAX_CALLS];
 static USED: AtomicUsize = AtomicUsize::new(0);
+/// bytes of the live allocations tagged with the current run (all calls)
+static LIVE_TRACKED_BYTES: AtomicI64 = AtomicI64::new(0);
+static LIVE_BYTES_BY_CALL: [AtomicI64; MAX_CALLS] = [const { AtomicI64::new(0) }; MAX_CALLS];
 
 struct Audit;
 
@@ -123,7 +126,9 @@ unsafe fn record(p: usize, layout: Layout) {
         let c = CALL_IDX.load(Ordering::Relaxed) as usize;
         if c < MAX_CALLS {
             LIVE_BY_CALL[c].fetch_add(1, Ordering::Relaxed);
+            LIVE_BYTES_BY_CALL[c].fetch_add(layout.size() as i64, Ordering::Relaxed);
         }
+        LIVE_TRACKED_BYTES.fetch_add(layout.size() as i64, Ordering::Relaxed);
         (RUN_ID.load(Ordering::Relaxed) << 8) | (c as u32 + 1)
     } else {
         0
@@ -168,7 +173,9 @@ unsafe fn check_release(p: usize, layout: Layout) -> bool {
                 let c = (tag & 0xff) as usize - 1;
                 if c < MAX_CALLS {
                     LIVE_BY_CALL[c].fetch_sub(1, Ordering::Relaxed);
+                    LIVE_BYTES_BY_CALL[c].fetch_sub(t[i].size as i64, Ordering::Relaxed);
                 }
+                LIVE_TRACKED_BYTES.fetch_sub(t[i].size as i64, Ordering::Relaxed);
             }
             t[i].state = FREED;
             true
@@ -259,11 +266,31 @@ fn audit_size(p: *const u8) -> Option<usize> {
     r
 }
 
+/// the call (index in the sequence) during which a live allocation of the current run was made
+fn audit_call(p: *const u8) -> Option<usize> {
+    if p.is_null() {
+        return None;
+    }
+    lock();
+    let r = unsafe {
+        find(p as usize).and_then(|i| {
+            let e = table()[i];
+            if e.state == LIVE && e.tag != 0 && (e.tag >> 8) == RUN_ID.load(Ordering::Relaxed) { Some((e.tag & 0xff) as usize - 1) } else { None }
+        })
+    };
+    unlock();
+    r
+}
+
 fn begin_run() {
     RUN_ID.fetch_add(1, Ordering::Relaxed);
     for c in LIVE_BY_CALL.iter() {
         c.store(0, Ordering::Relaxed);
     }
+    for c in LIVE_BYTES_BY_CALL.iter() {
+        c.store(0, Ordering::Relaxed);
+    }
+    LIVE_TRACKED_BYTES.store(0, Ordering::Relaxed);
     NFAULTS.store(0, Ordering::Relaxed);
 }
 
@@ -300,6 +327,8 @@ const ACTIONS: &[&str] = &[
     r#"{"status_code_update":null,"header_filters":[{"filter":{"action":"add","header":"X-A","value":"é","id":null,"target_hash":null},"on_response_status_codes":[404],"exclude_response_status_codes":false,"rule_id":"a"},{"filter":{"action":"remove","header":"x-b","value":"","id":null,"target_hash":null},"on_response_status_codes":[],"exclude_response_status_codes":false,"rule_id":"b"}],"body_filters":[],"rule_ids":["a","b"],"rule_traces":[{"id":"a","on_response_status_codes":[404],"exclude_response_status_codes":false}],"rules_applied":[],"log_override":{"log_override":false,"rule_id":"a","on_response_status_codes":[],"exclude_response_status_codes":false,"fallback_log_override":null,"fallback_rule_id":null,"unit_id":null}}"#,
     // html body filter + replace text
     r#"{"status_code_update":null,"header_filters":[],"body_filters":[{"filter":{"action":"append_child","value":"<p>x</p>","inner_value":"<p>x</p>","element_tree":["html","body"],"css_selector":null,"id":null,"target_hash":null},"on_response_status_codes":[],"exclude_response_status_codes":false,"rule_id":"h"},{"filter":{"action":"prepend_text","content":"é","id":null,"target_hash":null},"on_response_status_codes":[200],"exclude_response_status_codes":false,"rule_id":"t"}],"rule_ids":["h","t"],"rule_traces":[],"rules_applied":[],"log_override":null}"#,
+    // header filters whose name / value carry a NUL byte (one of the two, both) or are empty: the C strings of the result
+    r#"{"status_code_update":null,"header_filters":[{"filter":{"action":"add","header":"X\u0000N","value":"v","id":null,"target_hash":null},"on_response_status_codes":[],"exclude_response_status_codes":false,"rule_id":"n"},{"filter":{"action":"add","header":"X-V","value":"a\u0000b","id":null,"target_hash":null},"on_response_status_codes":[],"exclude_response_status_codes":false,"rule_id":"n"},{"filter":{"action":"add","header":"\u0000","value":"\u0000","id":null,"target_hash":null},"on_response_status_codes":[],"exclude_response_status_codes":false,"rule_id":"n"},{"filter":{"action":"add","header":"","value":"","id":null,"target_hash":null},"on_response_status_codes":[],"exclude_response_status_codes":false,"rule_id":"n"},{"filter":{"action":"add","header":"X-E","value":"","id":null,"target_hash":null},"on_response_status_codes":[],"exclude_response_status_codes":false,"rule_id":"n"},{"filter":{"action":"override","header":"","value":"x","id":null,"target_hash":null},"on_response_status_codes":[],"exclude_response_status_codes":false,"rule_id":"n"}],"body_filters":[],"rule_ids":["n"],"rule_traces":[],"rules_applied":[],"log_override":null}"#,
     // the empty action
     r#"{"status_code_update":null,"header_filters":[],"body_filters":[],"rule_ids":[],"rule_traces":[],"rules_applied":[],"log_override":null}"#,
     // not an action
@@ -333,7 +362,7 @@ fn gen_calls(rng: &mut Prng, small: bool) -> Vec<Value> {
     let n = rng.below(24) + 2;
     // most sequences start with an action (usually a valid one), a body filter and a buffer
     if rng.chance(3, 4) {
-        let pool = if rng.chance(5, 6) { 3 } else { ACTIONS.len() };
+        let pool = if rng.chance(5, 6) { 4 } else { ACTIONS.len() };
         calls.push(json!({"op": "action_new", "json": ACTIONS[rng.below(pool)]}));
         slots.push((K::Action, false));
         if rng.chance(2, 3) {
@@ -379,6 +408,9 @@ fn gen_calls(rng: &mut Prng, small: bool) -> Vec<Value> {
             4 => {
                 if let Some(s) = pick(rng, &slots, K::Buf) {
                     calls.push(json!({"op": "buf_read", "s": s}));
+                }
+                if let Some(s) = pick(rng, &slots, K::Hlist) {
+                    calls.push(json!({"op": "hmap_read", "s": s}));
                 }
             }
             5 => {
@@ -466,8 +498,17 @@ fn gen_calls(rng: &mut Prng, small: bool) -> Vec<Value> {
                 }
             }
             19 => {
-                calls.push(json!({"op": "version"}));
-                slots.push((K::Str, false));
+                if rng.chance(1, 2) {
+                    calls.push(json!({"op": "version"}));
+                    slots.push((K::Str, false));
+                } else {
+                    // Rust -> C conversion of arbitrary headers: NUL in the name, in the value, in both, in neither; empty strings
+                    const N: &[&str] = &["X-A", "", "X\u{0}", "\u{0}", "é", "a\u{0}b\u{0}", "Set-Cookie"];
+                    const V: &[&str] = &["v", "", "\u{0}", "a\u{0}b", "é日", "x\u{0}"];
+                    let hs: Vec<Value> = (0..rng.below(5)).map(|_| json!([*rng.pick(N), *rng.pick(V)])).collect();
+                    calls.push(json!({"op": "hmap_new", "headers": hs}));
+                    slots.push((K::Hlist, false));
+                }
             }
             20 => {
                 if rng.chance(1, 3) {
@@ -598,16 +639,81 @@ fn to_headers(p: &[(String, String)]) -> Vec<Header> {
     p.iter().map(|(n, v)| Header { name: n.clone(), value: v.clone() }).collect()
 }
 
-unsafe fn read_hlist(mut h: *const CHeaderMap) -> Vec<(String, String, *const CHeaderMap)> {
+/// the nodes of a C header list in list order: (name, value, node); a NULL string pointer is `None`
+unsafe fn read_hlist(mut h: *const CHeaderMap) -> Vec<(Option<String>, Option<String>, *const CHeaderMap)> {
     let mut out = Vec::new();
     while !h.is_null() {
         let node = unsafe { &*h };
-        let n = unsafe { CStr::from_ptr(node.name) }.to_string_lossy().to_string();
-        let v = unsafe { CStr::from_ptr(node.value) }.to_string_lossy().to_string();
-        out.push((n, v, h));
+        let rd = |p: *const c_char| if p.is_null() { None } else { Some(unsafe { CStr::from_ptr(p) }.to_string_lossy().to_string()) };
+        out.push((rd(node.name), rd(node.value), h));
         h = node.next;
     }
     out
+}
+
+/// Audit of a header list the library handed out, against the native headers it was built from (Rust order):
+/// the C list is the reversed list; a string with an interior NUL is a NULL pointer, every other string is equal;
+/// every node / name / value pointer is a distinct allocation made during call `ci` (no shared statics).
+/// Returns the oracle argument `hdrs` ([[name len | null, value len | null] ..] in Rust order) and the owned pointers.
+fn audit_hlist(ci: usize, got: &[(Option<String>, Option<String>, *const CHeaderMap)], want: &[Header], mism: &mut Vec<String>) -> (Value, Vec<*const u8>) {
+    let mut want_rev: Vec<&Header> = want.iter().collect();
+    want_rev.reverse();
+    if got.len() != want_rev.len() {
+        mism.push(format!("call {ci}: header list has {} nodes, the native result {} headers", got.len(), want_rev.len()));
+    }
+    for ((n, v, _), w) in got.iter().zip(want_rev.iter()) {
+        let exp = |x: &str| if x.contains('\0') { None } else { Some(x.to_string()) };
+        if *n != exp(&w.name) || *v != exp(&w.value) {
+            mism.push(format!("call {ci}: header node ({:?}, {:?}) for the native header ({:?}, {:?})", n, v, w.name, w.value));
+        }
+    }
+    let mut ptrs: Vec<*const u8> = Vec::new();
+    for (_, _, node) in got {
+        let nd = unsafe { &**node };
+        ptrs.push(*node as *const u8);
+        ptrs.push(nd.name as *const u8);
+        ptrs.push(nd.value as *const u8);
+    }
+    let nonnull: Vec<*const u8> = ptrs.iter().cloned().filter(|p| !p.is_null()).collect();
+    for (i, p) in nonnull.iter().enumerate() {
+        if nonnull[..i].contains(p) {
+            mism.push(format!("call {ci}: two pointers of the header list are the same allocation"));
+        }
+        if audit_call(*p) != Some(ci) {
+            mism.push(format!("call {ci}: a pointer of the header list is not an allocation made by this call (static or foreign memory)"));
+        }
+    }
+    let hdrs: Vec<Value> = got.iter().rev().map(|(n, v, _)| json!([n.as_ref().map(|x| x.len()), v.as_ref().map(|x| x.len())])).collect();
+    (Value::Array(hdrs), ptrs)
+}
+
+/// The caller frees a C string the library handed out — only if it really is a live heap allocation: a pointer into
+/// static or foreign memory must not be passed to `CString::from_raw` (its Drop writes to the first byte).
+unsafe fn free_cstr_checked(p: *const c_char, what: &str, mism: &mut Vec<String>) {
+    if p.is_null() {
+        return;
+    }
+    if audit_size(p as *const u8).is_none() && !cfg!(miri) {
+        mism.push(format!("{what}: the pointer handed out is not a live heap allocation (static or foreign memory): not freed"));
+        return;
+    }
+    drop(unsafe { CString::from_raw(p as *mut c_char) });
+}
+
+unsafe fn free_hlist_checked(h: *const CHeaderMap, what: &str, mism: &mut Vec<String>) {
+    let mut cur = h;
+    while !cur.is_null() {
+        if audit_size(cur as *const u8).is_none() && !cfg!(miri) {
+            mism.push(format!("{what}: a node of the header list is not a live heap allocation: not freed"));
+            return;
+        }
+        let node = unsafe { Box::from_raw(cur as *mut CHeaderMap) };
+        unsafe {
+            free_cstr_checked(node.name, what, mism);
+            free_cstr_checked(node.value, what, mism);
+        }
+        cur = node.next;
+    }
 }
 
 fn cbuf(b: Buffer) -> CBuffer {
@@ -645,6 +751,8 @@ fn execute(case: &Value, fill: bool) -> Result<Exec, String> {
     // requests whose remote address was set through the C API (the twin is not updated: trusted-proxies is not a
     // dependency of the harness), so `remote_addr` is left out of their comparison
     let mut addr_touched: Vec<usize> = Vec::new();
+    // (slot, creating call) of the lists made by http_headers_to_header_map: per-call leak accounting
+    let mut hmap_calls: Vec<(usize, usize)> = Vec::new();
     let mut tconfig_size: usize = 0;
     begin_run();
 
@@ -825,27 +933,52 @@ fn execute(case: &Value, fill: bool) -> Result<Exec, String> {
                         } else {
                             let got = unsafe { read_hlist(out) };
                             let want = twin.as_mut().map(|t| t.filter_headers(to_headers(&input), code, add, None)).unwrap_or_default();
-                            let got_pairs: Vec<(String, String)> = got.iter().map(|(n, v, _)| (n.clone(), v.clone())).collect();
-                            let mut want_rev: Vec<(String, String)> = want.iter().map(|h| (h.name.clone(), h.value.clone())).collect();
-                            want_rev.reverse();
-                            if got_pairs != want_rev {
-                                ex.mismatches.push(format!("call {ci}: filtered headers differ from native filter_headers (reversed): {:?} vs {:?}", got_pairs, want_rev));
-                            }
-                            // native order = reverse of the C list
-                            let hdrs: Vec<Value> = got.iter().rev().map(|(n, v, _)| json!([n.len(), v.len()])).collect();
-                            oracle.push(("hdrs", Value::Array(hdrs)));
-                            let mut ptrs: Vec<*const u8> = Vec::new();
-                            for (_, _, node) in &got {
-                                let nd = unsafe { &**node };
-                                ptrs.push(*node as *const u8);
-                                ptrs.push(nd.name as *const u8);
-                                ptrs.push(nd.value as *const u8);
-                            }
+                            let (hdrs, ptrs) = audit_hlist(ci, &got, &want, &mut ex.mismatches);
+                            oracle.push(("hdrs", hdrs));
                             result = json!({"slot": slots.len(), "owned": owned_sizes(&ptrs)});
                             slots.push(Slot { h: H::Hlist(out), released: false });
                         }
                     }
                     _ => return Err("protocol: kind".into()),
+                }
+            }
+            "hmap_new" => {
+                // `http_headers_to_header_map` called directly (a pub fn of the library): Rust -> C conversion of headers
+                // that may contain NUL bytes or be empty
+                let input = pairs(call, "headers");
+                let want = to_headers(&input);
+                let arg = want.clone();
+                let out = tracked(ci, || redirectionio::http::ffi::http_headers_to_header_map(arg)) as *const CHeaderMap;
+                let got = unsafe { read_hlist(out) };
+                let (hdrs, ptrs) = audit_hlist(ci, &got, &want, &mut ex.mismatches);
+                oracle.push(("hdrs", hdrs));
+                // everything this call allocated and kept is the list: bytes still live == bytes the list owns
+                let owned_bytes: i64 = ptrs.iter().filter_map(|p| audit_size(*p)).map(|x| x as i64).sum();
+                let live = LIVE_BYTES_BY_CALL[ci.min(MAX_CALLS - 1)].load(Ordering::Relaxed);
+                if live != owned_bytes {
+                    ex.mismatches.push(format!("call {ci}: http_headers_to_header_map left {live} bytes live, the list owns {owned_bytes}"));
+                }
+                result = json!({"slot": slots.len(), "owned": owned_sizes(&ptrs)});
+                hmap_calls.push((slots.len(), ci));
+                slots.push(Slot { h: H::Hlist(out), released: false });
+            }
+            "hmap_read" => {
+                // `header_map_to_http_headers` (pub fn): C -> Rust; nodes with a NULL string are skipped
+                let i = slot!(call, "s");
+                let h = match &slots[i].h {
+                    H::Hlist(h) => *h,
+                    _ => return Err("protocol: kind".into()),
+                };
+                let back = tracked(ci, || redirectionio::http::ffi::header_map_to_http_headers(h as *const redirectionio::http::ffi::HeaderMap));
+                let got = unsafe { read_hlist(h) };
+                let want: Vec<(String, String)> = got.iter().filter_map(|(n, v, _)| Some((n.clone()?, v.clone()?))).collect();
+                let have: Vec<(String, String)> = back.iter().map(|x| (x.name.clone(), x.value.clone())).collect();
+                if have != want {
+                    ex.mismatches.push(format!("call {ci}: header_map_to_http_headers read {:?}, the list holds {:?}", have, want));
+                }
+                drop(back);
+                if LIVE_BY_CALL[ci.min(MAX_CALLS - 1)].load(Ordering::Relaxed) != 0 {
+                    ex.mismatches.push(format!("call {ci}: header_map_to_http_headers kept an allocation"));
                 }
             }
             "hlist_free" => {
@@ -854,15 +987,27 @@ fn execute(case: &Value, fill: bool) -> Result<Exec, String> {
                     H::Hlist(h) => *h,
                     _ => return Err("protocol: kind".into()),
                 };
-                tracked(ci, || unsafe {
-                    let mut cur = h;
-                    while !cur.is_null() {
-                        let node = Box::from_raw(cur as *mut CHeaderMap);
-                        drop(CString::from_raw(node.name as *mut c_char));
-                        drop(CString::from_raw(node.value as *mut c_char));
-                        cur = node.next;
+                // bytes the list owns (from the audit table), to be compared with what freeing it releases
+                let owned_bytes: i64 = unsafe { read_hlist(h) }.iter().map(|(_, _, node)| {
+                    let nd = unsafe { &**node };
+                    [*node as *const u8, nd.name as *const u8, nd.value as *const u8].iter().filter_map(|p| audit_size(*p)).map(|x| x as i64).sum::<i64>()
+                }).sum();
+                let before = LIVE_TRACKED_BYTES.load(Ordering::Relaxed);
+                {
+                    let mut m = Vec::new();
+                    tracked(ci, || unsafe { free_hlist_checked(h, "hlist_free", &mut m) });
+                    ex.mismatches.extend(m.into_iter().map(|x| format!("call {ci}: {x}")));
+                }
+                let released = before - LIVE_TRACKED_BYTES.load(Ordering::Relaxed);
+                if released != owned_bytes {
+                    ex.mismatches.push(format!("call {ci}: freeing the header list released {released} bytes, it owned {owned_bytes}"));
+                }
+                if let Some((_, creator)) = hmap_calls.iter().find(|(sl, _)| *sl == i) {
+                    let (n, b) = (LIVE_BY_CALL[*creator].load(Ordering::Relaxed), LIVE_BYTES_BY_CALL[*creator].load(Ordering::Relaxed));
+                    if n != 0 || b != 0 {
+                        ex.mismatches.push(format!("call {ci}: after freeing its whole result, http_headers_to_header_map (call {creator}) still has {n} allocation(s) / {b} bytes live"));
                     }
-                });
+                }
                 slots[i].released = true;
             }
             "filter_new" => {
@@ -1047,11 +1192,11 @@ fn execute(case: &Value, fill: bool) -> Result<Exec, String> {
                     H::Str(p) => *p,
                     _ => return Err("protocol: kind".into()),
                 };
-                tracked(ci, || unsafe {
-                    if !p.is_null() {
-                        drop(CString::from_raw(p as *mut c_char));
-                    }
-                });
+                {
+                    let mut m = Vec::new();
+                    tracked(ci, || unsafe { free_cstr_checked(p, "str_free", &mut m) });
+                    ex.mismatches.extend(m.into_iter().map(|x| format!("call {ci}: {x}")));
+                }
                 slots[i].released = true;
             }
             "tp_new" => {
@@ -1095,30 +1240,19 @@ fn execute(case: &Value, fill: bool) -> Result<Exec, String> {
         if sl.released {
             continue;
         }
+        let mut m = Vec::new();
         tracked((base + 1).min(MAX_CALLS - 1), || unsafe {
             match &sl.h {
                 H::Buf(b) => redirectionio_api_buffer_drop(*b),
-                H::Str(p) => {
-                    if !p.is_null() {
-                        drop(CString::from_raw(*p as *mut c_char));
-                    }
-                }
+                H::Str(p) => free_cstr_checked(*p, "final release", &mut m),
                 H::Action(a, _) => redirectionio_action_drop(*a),
                 H::Filter(f, _) => redirectionio_action_body_filter_drop(*f),
                 H::Request(r, _) => redirectionio_request_drop(*r),
-                H::Hlist(h) => {
-                    let mut cur = *h;
-                    while !cur.is_null() {
-                        let node = Box::from_raw(cur as *mut CHeaderMap);
-                        drop(CString::from_raw(node.name as *mut c_char));
-                        drop(CString::from_raw(node.value as *mut c_char));
-                        cur = node.next;
-                    }
-                }
+                H::Hlist(h) => free_hlist_checked(*h, "final release", &mut m),
                 H::Tp(_) => {}
             }
         });
-        let _ = k;
+        ex.mismatches.extend(m.into_iter().map(|x| format!("slot {k}: {x}")));
         sl.released = true;
     }
     drop(slots); // native twins
